@@ -123,7 +123,7 @@ def eval_case(ctx, case):
         stages["nontrivial"] = depth >= 3 or bool(doc.ids)
 
     try:
-        doc, wtext = drive.parse_staged(text, on_parsed, doctitle_xform=case.get("doctitle", False), **kw)
+        doc, wtext = drive.parse_staged(text, on_parsed, doctitle_xform=case.get("doctitle", False), **case.get("settings", {}), **kw)
     except Exception as e:  # noqa: BLE001
         ctx.count("no_document:" + type(e).__name__)
         doc = None
@@ -172,7 +172,14 @@ def make_case(R, i):
         text, _ = g.document(1, 4)
         text = G.mutate(R, text, R.randint(1, 5))
         kind = "mutated"
-    return {"kind": kind, "text": text, "cfg": cfg, "doctitle": R.random() < 0.3}
+    settings = {}
+    if R.random() < 0.15:
+        settings["raw_enabled"] = False  # docutils security switches: Parser.parse post-processes the tree
+    if R.random() < 0.1:
+        settings["file_insertion_enabled"] = False
+    if R.random() < 0.1:
+        settings["report_level"] = R.choice([1, 3, 4])
+    return {"kind": kind, "text": text, "cfg": cfg, "doctitle": R.random() < 0.3, "settings": settings}
 
 
 def run_suite_with_monitor(ctx):
